@@ -338,7 +338,11 @@ def gen_batches(rng, tier):
         for ies in (full4, full6):
             toks = [msg_token("T", 0, 0, 0, b"", ies, []), msg_token("D", 0, 0, 0, b"", ies, [zero(ies)] * 3),
                     msg_token("D", 2 ** 32 - 1, 2 ** 32 - 1, 2 ** 32 - 1, b"255.255.255.255", ies, [maxv(ies), zero(ies), maxv(ies)]),
-                    msg_token("D", 1, 2, 3, b"::1", [], [[], []]), msg_token("D", 1, 2, 3, b"::1", ies, [])]
+                    msg_token("D", 1, 2, 3, b"::1", [], [[], []]), msg_token("D", 1, 2, 3, b"::1", ies, []),
+                    # records whose flow message is ALL proto3 defaults (zero header fields, no address, every value zero or
+                    # empty, no IP element): the payload is the 4-byte length prefix alone and must still be published and read back
+                    msg_token("D", 0, 0, 0, b"", [], [[], []]),
+                    msg_token("D", 0, 0, 0, b"", [ie for ie in ies if ie.ty not in (18, 19)], [zero([ie for ie in ies if ie.ty not in (18, 19)])] * 2)]
             cases.append(Case([" ".join(["kafka", s, "0", G.hexs(b"AntreaTopic")] + toks)], "corner", True, True))
         cases.append(Case(["kafka %s 0 %s" % (s, G.hexs(b"t"))], "corner", False, True))          # the channel is closed at once
     # every IPv6 text shape, one record each, in order
